@@ -126,6 +126,16 @@ def run(chk):
                   or _dominating_check(fr, fr.cfg.node_of(r), ["res_command & TOGGLE_BIT != self._toggle"]), "R4", f"{CL}:ReadableStream.read | toggle checked before data", rdd.loc(r),
                   "segment data is returned without comparing the response's toggle bit with the expected one")
 
+    # the upload ends where the server says it ends: `_done` is set from the c bit of the validated segment response only (an
+    # announced size may come from a stale initiate response; trusting it cuts the data short without any error)
+    for st in [n for n in own_nodes(rdd.node) if isinstance(n, ast.Assign) and any(dotted(t) == "self._done" for t in n.targets)]:
+        if folder.try_fold(st.value, Scope(rdd.mod), None) is not True:
+            continue
+        g = [(fr.norm(e, subst=False), p) for e, p in fr.facts_at(st)]
+        okd = any(p and ("NO_MORE_DATA" in t or t.replace(" ", "") in ("1&res_command", "res_command&1")) for t, p in g) or any((p and "exp_data is not None" in t) or (not p and "exp_data is None" in t) for t, p in g)
+        chk.check(okd, "R4", f"{CL}:ReadableStream.read | end of upload taken from the c bit", rdd.loc(st),
+                  f"`self._done = True` under {g}: the transfer is declared complete without the server's last-segment flag; with a stale or wrong size the caller gets truncated data and no error")
+
     # ------------------------------------------------------------------ R6 no residue
     cli = repo.cls(CL, "SdoClient", "C07.R6")
     for mname, m in cli.methods.items():
@@ -145,6 +155,9 @@ def run(chk):
     made = {dotted(c.func) for c in ast.walk(op.node) if isinstance(c, ast.Call)} & {"ReadableStream", "WritableStream", "BlockUploadStream", "BlockDownloadStream"}
     chk.check(len(made) == 4, "R6", f"{CL}:SdoClient.open | fresh stream object per transfer", op.loc(), f"open() constructs {sorted(made)}")
     shared.server_reset(chk, "R6")
+    # "the next transfer on the same server completes correctly" and "never success with different data" presuppose that what a
+    # completed download stored is an immutable copy: a later, disturbed transfer that re-uses the server's buffer must not reach it
+    shared.store_exact(chk, "R6")
 
     # ------------------------------------------------------------------ R8 instances are independent (shared clause)
     from . import shared as _shared
